@@ -692,6 +692,9 @@ func vfC06Direct(c *vfC06Case, ctx *vfCtx) *vfViolation {
 			for i := 0; i < 24; i++ {
 				v := vfCloneF32(c.Contents[i%len(c.Contents)])
 				v[0] += float32(i) * 0.125
+				if vfIsZero(v) {
+					v[0] = 1 // (a zero vector cannot be trained on under cosine)
+				}
 				cc.Train = append(cc.Train, v)
 			}
 		}
